@@ -5,6 +5,9 @@ package chansim
 import (
 	"bytes"
 	"errors"
+
+	"github.com/btcsuite/btcd/btcec/v2"
+	"github.com/lightningnetwork/lnd/tlv"
 	"crypto/sha256"
 	"fmt"
 
@@ -130,6 +133,23 @@ func (s *Sim) DoAddExp(x int, amt lnwire.MilliSatoshi, expiry uint32,
 		Expiry:      h.Expiry,
 	}
 	copy(msg.OnionBlob[:], bytes.Repeat([]byte{byte(s.seq)}, 32))
+	// A quarter of the adds carry a route-blinding point, a quarter custom
+	// records (never the no-op type 65544): both must survive signing,
+	// persistence, reloads and retransmission unchanged.
+	extra := s.P.hashN("htlc-extra", s.seq)
+	if extra[0]%4 == 0 {
+		k, _ := btcec.PrivKeyFromBytes(extra[:])
+		msg.BlindingPoint = tlv.SomeRecordT(
+			tlv.NewPrimitiveRecord[lnwire.BlindingPointTlvType](k.PubKey()),
+		)
+		s.label("htlc_with_blinding_point")
+	}
+	if extra[1]%4 == 0 {
+		msg.CustomRecords = lnwire.CustomRecords{
+			uint64(lnwire.MinCustomRecordsTlvType) + 100 + uint64(extra[2]): extra[3:11],
+		}
+		s.label("htlc_with_custom_records")
+	}
 	want := s.NextHtlcID(x)
 	id, err := s.Sides[x].Chan.AddHTLC(msg, nil)
 	if err != nil {
@@ -150,6 +170,7 @@ func (s *Sim) DoAddExp(x int, amt lnwire.MilliSatoshi, expiry uint32,
 	}
 	h.ID = id
 	msg.ID = id
+	h.Msg = msg
 	s.send(x, Update{Kind: UAdd, H: h, Msg: msg})
 	s.tracef("%s add id=%d amt=%d exp=%d dup=%v", sideName(x), id, h.Amt,
 		h.Expiry, dupOf != nil)
